@@ -46,6 +46,7 @@ STRENGTHENED = {
     "C02h": "MISSED by the first run (diff between a scrolled-back view with rows of an older width and an unscrolled snapshot): the resize family's widening scenario now snapshots, scrolls back and diffs both ways (DIFF / ROWSD)",
     "C07h": "MISSED by the first run (cached 'row is blank with pen p' survives a widening resize): the resize family got 'erase with a pen, widen, erase again with the same pen'",
     "C11h": "MISSED by the first run (1049 clears only the rows the cursor has written to; SD / RI / IL move content below them): the alt family pushes content down on the alternate screen, leaves and re-enters through 1049",
+    "C19i": "MISSED by the first run (a pen that became faint while still bold keeps a hidden bit that only erased blanks carry; the hook's dump was changed along with it, so only emitted bytes can show it): added the pen family (the same observable pen reached by two histories, erases over the same and over adjacent cells, snapshot and diff in between) to C19, C01 and C02",
     "C18b": "caught by the oracle's token table only: added idiom 83 (ESC with intermediates and every kind of final byte)",
 }
 res = {}
